@@ -152,6 +152,31 @@ func RunStress(seed int64, idx int, hostile bool) *Result {
 				continue
 			}
 			nd := net.Nodes[r.Intn(n)]
+			if r.Intn(3) == 0 {
+				// block sync validating certificates on the consumer's goroutine while the node takes part in consensus: the
+				// committed pair of a height is accepted by every node (strict), the same proof next to another height's block is not
+				h := 1 + uint64(r.Intn(int(mc)))
+				c := net.Canon(h)
+				var prevB interfaces.Block
+				var prevP []byte
+				okPrev := h == 1
+				if h > 1 {
+					if pc := net.Canon(h - 1); pc != nil {
+						prevB, prevP, okPrev = pc.Block, pc.Proof, true
+					}
+				}
+				if c != nil && okPrev {
+					net.count("C03 committed pairs validated through the API of a running node")
+					if err := nd.ML.ValidateBlockConsensus(context.Background(), c.Block, c.Proof, prevB, prevP, false); err != nil {
+						net.violate("C03", "running-peer-rejects-committed-pair", "node %s (running): strict ValidateBlockConsensus rejects the (block, proof) committed at height %d: %v", nd.Id, h, err)
+					}
+					other := &spi.Blk{H: h, Body: "not-the-committed-block"}
+					if err := nd.ML.ValidateBlockConsensus(context.Background(), other, c.Proof, prevB, prevP, r.Intn(2) == 0); err == nil {
+						net.violate("C02", "accepted-without-genuine-certificate:hash-does-not-commit-to-block", "node %s (running): ValidateBlockConsensus accepted the certificate of height %d next to another block", nd.Id, h)
+					}
+				}
+				continue
+			}
 			burst := 1
 			if r.Intn(3) == 0 {
 				burst = 2 + r.Intn(5)
